@@ -13,6 +13,7 @@ func init() {
 	rt.Register("C12_parallel_data", VerifHarness_C12_parallel_data)
 	rt.Register("C12_parallel_data_long", VerifHarness_C12_parallel_data_long)
 	rt.Register("C12_parallel_out", VerifHarness_C12_parallel_out)
+	rt.Register("C12_partition_symbolic", VerifHarness_C12_partition_symbolic)
 	rt.Register("C07_cauchy_xy", VerifHarness_C07_cauchy_xy)
 	rt.Register("C07_generators", VerifHarness_C07_generators)
 	rt.Register("C07_vandermonde_elem", VerifHarness_C07_vandermonde_elem)
@@ -135,6 +136,23 @@ func VerifHarness_C12_parallel_out() {
 	length := 2 * (1 + rt.Choice("words", 3))
 	g := 1 + rt.Choice("goroutines", 3)
 	parallelCase(length, g, true)
+}
+
+// C12 (b): the real applyMatrixParallelData with buffers of symbolic length
+// (no contents): the ranges on which the spawned workers call the kernels are
+// consecutive, non-empty and cover the shard, for every even length and 1..4
+// requested goroutines; the WaitGroup count equals the number of workers.
+func VerifHarness_C12_partition_symbolic() {
+	rt.Option("int-mode")
+	g := 1 + rt.Choice("goroutines", 4)
+	in := [][]byte{rt.AbstractBytes("in")}
+	rt.Assume(len(in[0])%2 == 0)
+	rt.Assume(len(in[0]) > 0)
+	rt.Assume(len(in[0]) < 1<<61)
+	out := [][]byte{rt.AbstractBytesLen("out", len(in[0]))}
+	m := gf2p16.NewMatrixFromSlice(1, 1, []gf2p16.T{3})
+	applyMatrixParallelData(m, in, out, g)
+	rt.TaskRangesPartition(len(in[0]))
 }
 
 // ---------- C07 unit VCs ----------
